@@ -208,12 +208,12 @@ PROPS["C14"] = {
     "technique": "Lean 4 proof (round trip, parse injectivity, reduction for tampering) + byte-exact differential with Lean AES-GCM",
 }
 PROPS["C16"] = {
-    "claimed": True, "module": "Rough.Props.C16",
+    "claimed": True, "module": "Rough.Props.C16", "need_bins": True,
     "theorems": ["Rough.Props.C16.C16_effective_is_written", "Rough.Props.C16.C16_out_of_range_refused", "Rough.Props.C16.C16_effective_in_range",
                  "Rough.Props.C16.C16_sources_agree", "Rough.Props.C16.C16_unknown_key_refused", "Rough.Props.C16.C16_missing_required", "Rough.Props.C16.C16_parse_show", "Rough.Props.C16.C16_sources_disagree_witness"],
     "streams": [{"args": ["cfg"], "shards_quick": 8, "shards_thorough": 16}],
     "ops": ["cfg"], "trivial": r"^cfg:base:", "min_nontrivial": 200,
-    "rule": "one probe process per case and source runs make_config + is_valid_config and prints every ServerConfig getter or `refused` (Err, false, or panic): each of port, batch_size, fault_percentage, num_workers, status_interval, health_check_port x 35 boundary values (-70000 .. 2^32+1 incl. 0, 1, 50/51, 64/65, 255/256/257, 300, 65535/65536, 70000, 83222) and non-integers, through the YAML file AND the documented environment variable; 60 (quick) / 400 (thorough) random in-range combinations incl. client_stats + persistence_directory; each out-of-range/invalid setting again in the company of client_stats+directory and other valid settings; missing required keys; unknown keys; seeds of wrong length/alphabet and an all-digit seed; interface / kms_protection / client_stats variants. L1 = effective value equals written value when started, out-of-range / missing / unknown refused, both sources agree. non-trivial = any case that varies a setting",
+    "rule": "one probe process per case and source runs make_config + is_valid_config and prints every ServerConfig getter or `refused` (Err, false, or panic); for every refused case the REAL roughenough-server binary is started with the same settings and must exit (L1 if it keeps running with settings the property says must fail; L2 if its status is not 1): each of port, batch_size, fault_percentage, num_workers, status_interval, health_check_port x 35 boundary values (-70000 .. 2^32+1 incl. 0, 1, 50/51, 64/65, 255/256/257, 300, 65535/65536, 70000, 83222) and non-integers, through the YAML file AND the documented environment variable; 60 (quick) / 400 (thorough) random in-range combinations incl. client_stats + persistence_directory; each out-of-range/invalid setting again in the company of client_stats+directory and other valid settings; missing required keys; unknown keys; seeds of wrong length/alphabet and an all-digit seed; interface / kms_protection / client_stats variants. L1 = effective value equals written value when started, out-of-range / missing / unknown refused, both sources agree. non-trivial = any case that varies a setting",
     "trusted_base": ["yaml-rust scalar typing and str::parse are represented by small functions of Model/Config.lean validated on the grid", "file-system facts for persistence_directory are a parameter of the model"],
     "assumptions": ["status_interval is documented only within 1..=65535 (the environment loader reads a u16, the file loader a u64)", "available_parallelism() is passed to the model as the default num_workers"],
     "design_ref": "5/C16",
@@ -373,13 +373,13 @@ for _pid in ("C01", "C02", "C03", "C09"):
 
 # event-loop stream: process_events one call at a time against Model/EventLoop.lean
 _LOOP = {"args": ["evloop"], "shards_quick": 8, "shards_thorough": 16}
-for _pid in ("C08", "C09", "C15", "C18", "C19"):
+for _pid in ("C08", "C09", "C15", "C17", "C18", "C19"):
     PROPS[_pid]["streams"] = PROPS[_pid]["streams"] + [_LOOP]
     PROPS[_pid]["ops"] = PROPS[_pid]["ops"] + ["loop"]
     PROPS[_pid]["rule"] += ("; event loop: the real Server::process_events called ONE CALL AT A TIME on a real mio socket and health-check listener "
                             "(batch_size 1,2,3,64 quick / +5,7 thorough): bursts of 0, 1, B, 16B-1, 16B, 16B+1, 32B-1, 32B, 32B+1, 48B+2 datagrams (valid classic / valid IETF / invalid from 4 sockets), "
                             "arrivals between calls while a backlog exists, idle calls, 1..33 TCP connections pending behind one readiness event mixed with datagrams; after every call the replies per socket and "
-                            "the connections answered are recorded. L1 = by the end every socket got exactly one reply per valid request, every connection the fixed HTTP response, no call answered more than 16*batch_size datagrams; "
+                            "the connections answered are recorded. L1 = by the end every socket got exactly one reply per valid request, every connection the fixed HTTP response, no call answered more than 16*batch_size datagrams, the recorder's valid / invalid / health-check / response totals at the end equal the traffic served (C17); "
                             "L2 = per call, reply destinations and connections answered equal Model/EventLoop.lean (edge-triggered readiness, backlog flag, 16-batch bound)")
 
 # event-loop theorems (Rough/Props/Loop.lean), attributed to the properties they extend
@@ -489,6 +489,11 @@ BRIDGE = {
                      "client_stats_merge_eq", "client_stats_merge_other"],
         "props": ["C17"],
     },
+    "Rough.Bridge.Reporter": {
+        "rs_modules": ["Reporter", "StatsCore"],
+        "theorems": ["reporterReceive_nodup", "receive_client_stats_eq"],
+        "props": ["C17"],
+    },
     "Rough.Bridge.Grease": {
         "rs_modules": ["Grease", "Message"],
         "theorems": ["grease_new_eq", "should_add_error_disabled", "should_add_error_enabled", "add_errors_sim", "add_errors_sim_gen",
@@ -517,6 +522,7 @@ _BRIDGE_WHAT = {
     "Rough.Bridge.Config": "config/mod.rs is_valid_config (every range / presence / directory / address decision of the start-up validator)",
     "Rough.Bridge.ServerLoop": "server.rs collect_requests and service_socket (the datagram path: classification of every received datagram, queuing, the two batches per pass, at most 16 batches per call, the backlog flag)",
     "Rough.Bridge.Stats": "stats/{mod,aggregated,per_client}.rs (every add_* of both recorders = the model's record; getters = the model's totals; ClientStats::merge)",
+    "Rough.Bridge.Reporter": "stats/reporter.rs receive_client_stats (drains the queue of published snapshots, oldest first, and merges every entry = the model's reporterReceive)",
     "Rough.Bridge.Grease": "grease.rs (new, should_add_error, add_errors, randomly_order_tags, corrupt_response_signature; the random generator is a tape of draws)",
     "Rough.Bridge.Tables": "tag.rs / version.rs (wire values, from_wire, is_nested, names, signing contexts, supported-versions list: the tables the other generated modules use through externs)",
     "Rough.Bridge.SendResponses": "responder.rs send_responses (the whole batch loop incl. failing sends, fault injection, lazily evaluated debug! arguments, statistics events)",
